@@ -224,37 +224,60 @@ def r20_3(run):
             "GasToGasConversion": [((), "mdot_kg_per_s_out", ("self.name_net_to", "source", "self.element_index_to", "mdot_kg_per_s"))],
             "G2PControlMultiEnergy": [(("self.el_power_led",), "gas_cons", ("self.name_net_gas", "sink", "self.elm_idx_gas", "mdot_kg_per_s")),
                                       (("not self.el_power_led",), "power_gen", ("self.name_net_power", "self.elm_type_power", "self.elm_idx_power", "p_mw"))]}
+    from ..arrnf import ANF as _ANF, C as _C, norm_cond as _nc, key as _tk, show as _ts
+
+    def selfattr(txt):
+        # "self.x" -> term of the attribute; a plain string is a table name
+        return ("attr", ("n", "self"), txt[5:]) if txt.startswith("self.") else None
+
+    def led_polarity(cond):
+        """True / False when the path condition fixes self.el_power_led, None otherwise"""
+        pol = None
+        for c_, p_ in cond:
+            c2, p2 = _nc(c_, p_)
+            if c2 == ("attr", ("n", "self"), "el_power_led"):
+                pol = p2
+        return pol
+
     for cname, rows in spec.items():
         ci = _cls(ix, cname)
         w = ci.methods["write_to_net"]
         cs = ci.methods["control_step"]
-        arms = {label: (a, b, node) for label, a, b, node in _arms(w)}
+        rw = _ANF(ix, w, param_alias=dict(zip(w.params(), ("self", "multinet")))).run()
+        rc = _ANF(ix, cs, param_alias=dict(zip(cs.params(), ("self", "multinet")))).run()
         for label, attr, cell in rows:
-            ok = label in arms
-            detail = None
+            want_led = None if not label else (not label[0].startswith("not "))
+            netattr, tname, idxattr, col = cell
+            # the scalar-arm store (not inside an except handler) of self.<attr> into a table cell
+            cand = [e for e in rw.stores() if e.value == ("attr", ("n", "self"), attr) and e.base[0] == "attr" and e.base[2] in ("at", "loc")
+                    and not any(isinstance(c_, tuple) and c_ and c_[0] == "exc" for c_, _p in e.cond)]
+            ok = len(cand) == 1
+            detail = "%d stores of self.%s" % (len(cand), attr)
             if ok:
-                a, b, node = arms[label]
-                ok = U(a.value) == "self." + attr and [x[:4] for x in _cell_refs(a.targets[0])] == [cell]
-                detail = "%s -> %s" % (U(a.value), _cell_refs(a.targets[0]))
+                e = cand[0]
+                tbl = e.base[1]
+                net_t = ("idx", ("idx", ("n", "multinet"), (_C("nets"),)), (selfattr(netattr),))
+                if selfattr(tname) is not None:
+                    want_tbl = ("idx", net_t, (selfattr(tname),))
+                    tbl_ok = _tk(tbl) == _tk(want_tbl)
+                else:
+                    tbl_ok = _tk(tbl) in (_tk(("attr", net_t, tname)), _tk(("idx", net_t, (_C(tname),))))
+                ok = tbl_ok and len(e.index) == 2 and e.index[0] == selfattr(idxattr) and e.index[1] == _C(col) \
+                    and (want_led is None or led_polarity(e.cond) == want_led)
+                detail = "%s[%s] under %s" % (_ts(tbl)[:80], ", ".join(_ts(i) for i in e.index), led_polarity(e.cond))
                 # the same arm of control_step assigns that attribute
-                assigned = []
-
-                def rec(stmts, lab):
-                    for s in stmts:
-                        if isinstance(s, ast.If):
-                            rec(s.body, lab + (U(s.test),))
-                            rec(s.orelse, lab + ("not " + U(s.test),))
-                        elif isinstance(s, ast.Assign) and U(s.targets[0]) == "self." + attr:
-                            assigned.append(lab)
-                rec(cs.node.body, ())
-                ok = ok and assigned == [label]
+                asg = [x for x in rc.stores() if x.base == ("n", "self") and x.index == (_C("." + attr),)]
+                ok = ok and len(asg) == 1 and (want_led is None or led_polarity(asg[0].cond) == want_led)
             run.ob("%s|write=%s|%s" % (cname, attr, "&".join(label) or "-"), ok,
                    "write_to_net stores self.%s (computed in the same arm of control_step) into %s" % (attr, "/".join(cell)),
                    run.where(w, w.node), detail=detail)
         # control_step calls write_to_net after computing and marks itself applied
-        body = [U(s).replace(" ", "") for s in cs.node.body]
-        run.ob("%s|writes-then-applied" % cname, body[-2:] == ["self.write_to_net(multinet)", "self.applied=True"],
-               "control_step writes the value and then reports convergence", run.where(cs, cs.node))
+        wr = [c for c in rc.calls() if c.fn == ("attr", ("n", "self"), "write_to_net") and c.args == (("n", "multinet"),)]
+        ap = [x for x in rc.stores() if x.base == ("n", "self") and x.index == (_C(".applied"),) and x.value == _C(True)]
+        comp_ = [x for x in rc.stores() if x.base == ("n", "self") and any(x.index == (_C("." + a_),) for _l, a_, _c in rows)]
+        run.ob("%s|writes-then-applied" % cname, len(wr) == 1 and len(ap) == 1 and not wr[0].cond and not ap[0].cond
+               and wr[0].seq < ap[0].seq and all(x.seq < wr[0].seq for x in comp_),
+               "control_step computes the value, writes it and then reports convergence", run.where(cs, cs.node))
     # opposite sides read what the other writes: P2G writes source.mdot of the gas net, read sides multiply value*scaling
     run.floor(7)
 
@@ -332,6 +355,16 @@ def r20_4(run):
             ok_c = bool(mem) and bool(comps) and all(
                 c[2] == ("call", ("attr", ("b", 0), "get_all_net_names"), (), ()) and len(c[3]) == 1 and not c[3][0][2]
                 and tkey(c[3][0][1]) in (tkey(ctrl), tkey(ctrl2)) for c in comps)
+            if bool(mem) and not comps:
+                # the same list grown in a loop: names = []; for ctrl in <multinet controllers of the level>: names.append(ctrl.get_all_net_names())
+                phis = [x for x in walk(coupled[0]) if x[0] == "phi"]
+                ok_c = bool(phis)
+                for ph in phis:
+                    L_ = rr.loops.get(ph[1])
+                    upd_ = L_["env"].get(ph[2]) if L_ else None
+                    good = L_ is not None and tkey(L_["iter"]) in (tkey(ctrl), tkey(ctrl2)) and upd_ is not None and upd_[0] == "op" and upd_[1] == "++" \
+                        and upd_[2][0] == "carried" and upd_[3] == ("list", (("call", ("attr", ("loop", ph[1], 0), "get_all_net_names"), (), ()),))
+                    ok_c = ok_c and good
         ok = has_own and ok_c
     run.ob("relevant_nets|own-or-coupled", ok,
            "a net is relevant iff one of its own controllers is in the level or a multinet-level controller of the level names it "
